@@ -264,7 +264,7 @@ def notes_of_text(alg):
 
 def crash_signature(res):
     """Name the uncaught exception of a run that ended through the internal-error status (255)."""
-    m = re.findall(r'^(\w+(?:\.\w+)*(?:Error|Exception|Exit|Interrupt)\w*)(?::|$)', res['stdout'] + '\n' + res.get('stderr', ''), re.M)
+    m = re.findall(r'^((?:\w+\.)*\w*(?:Error|Exception|Exit|Interrupt|error)\w*)(?::|$)', res['stdout'] + '\n' + res.get('stderr', ''), re.M)
     where = re.findall(r'File ".*?/(\w+)\.py", line \d+, in (\w+)', res['stdout'])
     exc = m[-1] if m else 'unknown'
     loc = '%s.%s' % where[-1] if where else 'unknown'
